@@ -89,9 +89,11 @@ DoWriteThrough(w, d, k, pos) ==
              d2 == IF ok1 THEN DestWrite(d1) ELSE d1
          IN [w |-> [w EXCEPT !.err = ~ok2, !.dirty = TRUE, !.fseq = w.fseq + 1],
              d |-> d2,
-             out |-> IF ok2 THEN <<FrameOf(w, FALSE, pos, pos + k)>> ELSE <<>>,
+             \* (an empty payload is still written, as a second call: if only that call fails the header
+             \* already on the wire is a whole frame)
+             out |-> IF ok2 \/ (ok1 /\ k = 0) THEN <<FrameOf(w, FALSE, pos, pos + k)>> ELSE <<>>,
              n |-> IF ok2 THEN k ELSE 0,
-             rest |-> IF ok1 /\ ~ok2 THEN HdrSize(w.side, k) ELSE 0,
+             rest |-> IF ok1 /\ ~ok2 /\ k > 0 THEN HdrSize(w.side, k) ELSE 0,
              err |-> IF ok2 THEN "nil" ELSE "transport"]
 
 \* Grow(n): the for-loop with header reservation; returns the new struct
